@@ -16,6 +16,7 @@ func init() {
 		Title: "JSON output decodes to exactly the logged values, in order, at the right nesting",
 		Fn:    checkC02,
 		Explanation: "Round-trip equality is a statement about values and is NOT decided. Decided is the plumbing that is a necessary condition for it: EncodeEntry emits level, time, name, caller, function, message, context, call-site fields, namespace closers, stack in exactly this order, each under exactly the omission rule stated in the property (guard-set equality) and under the configured key it tests; the narrow-width Add*/Append* wrappers only widen within the same signedness (checked for the build's type widths), float32/complex64 keep their precision argument, binary goes through base64.StdEncoding; the reference in-memory encoders store their parameter itself (only []byte→string for byte strings) and create fresh containers for nested values; numbers are formatted by strconv with base 10 / shortest round-trip 'f' formatting on every path, NaN/±Inf arms agree with their literals; the error expansion (message, Causes array, Verbose only when different); the reflection fallback (HTML escaping off, null shortcut, buffer reset before and newline trimmed after each use); and the contradiction rule on time ranges: zap.Time believes a time may not fit int64 nanoseconds, so every other UnixNano() on an encoder's time argument must be range-guarded (4 open known findings: the epoch encoders and the JSON fallback are not). " +
+			"Also decided: the token grammar of C01 (what decodes must first parse), and the short caller representation by bounded concrete exploration of EntryCaller.TrimmedPath on a 3-byte file name with every placement of the last two separators: everything after the penultimate '/', the whole path with fewer than two. " +
 			"NOT decided: strconv's shortest-float correctness, time formats, base64 content, encoding/json, equality with MapObjectEncoder on values.",
 		Assumptions: commonAssumptions,
 	}
